@@ -40,6 +40,18 @@ class CompareError(RuntimeError):
         return error
 
 
+def _different(left, right):
+    if left != right:
+        return True
+
+    # 1 == 1.0 == True, but they are different constants
+    for numeric_type in [bool, int, float, complex]:
+        if isinstance(left, numeric_type) != isinstance(right, numeric_type):
+            return True
+
+    return False
+
+
 def compare_ast(l_ast, r_ast):
     """
     Compare Python Abstract Syntax Trees
@@ -80,7 +92,7 @@ def compare_ast(l_ast, r_ast):
             for i, left, right in zip(counter(), l_list, r_list):
                 if isinstance(left, ast.AST) or isinstance(right, ast.AST):
                     compare_ast(left, right)
-                elif left != right:
+                elif _different(left, right):
                     raise CompareError(
                         l_ast,
                         r_ast,
@@ -94,7 +106,7 @@ def compare_ast(l_ast, r_ast):
 
             if isinstance(left_field, ast.AST) or isinstance(right_field, ast.AST):
                 compare_ast(left_field, right_field)
-            elif left_field != right_field:
+            elif _different(left_field, right_field):
                 raise CompareError(
                     l_ast,
                     r_ast,
